@@ -88,10 +88,16 @@ def case_eos(c: dict) -> dict:
     if adm:
         return r.result(inadmissible=adm)
     tol = HL.TIGHT if c["tol"] == "tight" else HL.DEFAULT
+    win = c.get("window")
     try:
-        hyd, th = HL.make_hydro(eos, Tn, tol)
+        hyd, th = HL.make_hydro(eos, Tn, tol, window=win)
     except Exception as ex:  # construction needs vJ/vMin: failing here is C06's business
         return r.result(inadmissible="Hydrodynamics could not be constructed: " + repr(ex)[:120])
+    ref = None
+    if win:
+        # a narrow window: the solver can only represent temperatures inside it, so a velocity is judged only if the matching
+        # found with the DEFAULT window (itself judged in section eos) lies inside the narrow one with a 5 % margin
+        ref, _ = HL.make_hydro(eos, Tn, tol)
     fb = [0]
     orig = hyd.template.findMatching
 
@@ -101,8 +107,18 @@ def case_eos(c: dict) -> dict:
 
     hyd.template.findMatching = wrapped
     nret = 0
-    for name, v in HL.velocity_lattice(hyd, eos, Tn):
+    for name, v in HL.velocity_lattice(ref if win else hyd, eos, Tn):
         fb[0] = 0
+        if win:
+            try:
+                w0 = [float(x) for x in ref.findMatching(v)]
+                inside = all(1.05 * win[0] * Tn < t < 0.95 * win[1] * Tn for t in w0[2:]) and max(_resid_vec(eos, *w0)) < 1e-6
+            except Exception:
+                inside = False
+            if not inside:
+                r.tag("window:matching-not-inside")
+                continue
+            r.tag("window:matching-inside")
         try:
             vp, vm, Tp, Tm = hyd.findMatching(v)
         except Exception as ex:
@@ -168,6 +184,21 @@ def cases(tier: str) -> list[dict]:
             d = dict(c)
             d["tol"] = tol
             d["id"] = c["id"] + ",tol=" + tol
+            out.append(d)
+    return out
+
+
+WINDOWS = [(0.2, 1.3), (0.5, 2.0), (0.05, 1.15)]
+
+
+def window_cases(tier: str) -> list[dict]:
+    """Other hydrodynamic temperature windows (configHydrodynamics.tmin/tmax): asymmetric about Tn, lower edge not negligible."""
+    out = []
+    for e in REUSE_EOS if tier != "quick" else REUSE_EOS[:3] + REUSE_EOS[4:5]:
+        for w in WINDOWS:
+            d = dict(e)
+            lab = e.get("label") or ",".join(f"{a:.4g}" for a in e["args"])
+            d.update(window=list(w), tol="default", id=f"{e['kind']}({lab}),Tn={e['Tn']:g},units={e['s']:g},window={w[0]:g}-{w[1]:g}")
             out.append(d)
     return out
 
@@ -440,7 +471,8 @@ def reuse_cases(tier):
     return out
 
 
-SECTIONS = {"eos": (cases, case_eos), "traced": (traced_cases, case_traced), "template": (template_cases, case_template), "reuse": (reuse_cases, case_reuse)}
+SECTIONS = {"eos": (cases, case_eos), "traced": (traced_cases, case_traced), "template": (template_cases, case_template), "reuse": (reuse_cases, case_reuse),
+            "window": (window_cases, case_eos)}
 
 
 def run(ctx) -> None:
